@@ -29,7 +29,7 @@ ASSUMPTIONS = ['lokiverif.exprs.ftext parses Fortran expression text as gfortran
                'real arithmetic is compared algebraically (exact rationals), i.e. rounding differences are not asserted',
                'the C mini evaluator implements C99 precedence, truncating integer division and the usual arithmetic conversions']
 SHARDS = {'quick': 8, 'thorough': 16}
-BUDGET = {'quick': 60, 'thorough': 1200}
+BUDGET = {'quick': 50, 'thorough': 1200}
 
 PREC = {'Or': 1, 'And': 2, 'Not': 3, 'Cmp': 4, 'Sum': 5, 'RawSum': 5, 'Product': 6, 'RawProduct': 6, 'Quotient': 6,
         'RawQuotient': 6, 'Power': 7, 'RawPower': 7}
@@ -518,6 +518,37 @@ def run_gfortran(ctx, collected):
         raise RuntimeError(f'harness self-check failed: ftext accepts {t!r} but gfortran rejects it: {err[-400:]}')
 
 
+def run_frontend_reparse(ctx, collected):
+    """thorough: the printed text re-parsed by the fparser frontend must evaluate like our reading of the text
+    (cross-check of ftext by a third parser; a difference is recorded as a note, it is not a C06 matter)"""
+    from ..exprs import fparse
+    texts = sorted({t for t, _, _ in collected if '_jp' not in t.lower() or True})[:600]
+    envs_of = {}
+    for t, e, _ in collected:
+        envs_of.setdefault(t, []).append(e)
+    for b in range(0, len(texts), 40):
+        chunk = texts[b:b + 40]
+        types = []
+        for t in chunk:
+            st_ = ftext.compile_fortran(t)(dict(ftext.array_env(), **envs_of[t][0]))
+            v = st_[1] if st_[0] == 'ok' else 0
+            types.append('log' if isinstance(v, bool) else 'int' if isinstance(v, int) else 'real')
+        _, trees = fparse.frontend_parse(chunk, types)
+        for t, tree in zip(chunk, trees):
+            if isinstance(tree, Exception):
+                ctx.count('frontend-reparse:frontend-raised')
+                continue
+            ft, fx = safe_compile(tree), ftext.compile_fortran(t)
+            ctx.extra['frontend_reparsed_texts'] = ctx.extra.get('frontend_reparsed_texts', 0) + 1
+            for e in envs_of[t]:
+                env = dict(ftext.array_env(), **e)
+                a, bb = fx(env), ft(env)
+                if a[0] == 'ok' and not ftext.same_value(a, bb):
+                    ctx.count('frontend-reparse:differs')
+                    ctx.note(f'frontend re-parse of {t!r} evaluates to {fmt(bb)} at {e}, our text reading gives {fmt(a)}')
+                    break
+
+
 def run_shard(ctx):
     strat = case_strategy(ctx.thorough)
     collected = [] if ctx.thorough else None
@@ -528,6 +559,8 @@ def run_shard(ctx):
             batch = list(collected)
             del collected[:]
             run_gfortran(ctx, batch)
+            if not ctx.extra.get('frontend_reparsed_texts'):
+                run_frontend_reparse(ctx, batch)
 
     total, chunk, k = ctx.scale(40000, 1600000), 1000, 0
     while k * chunk < total and not ctx.out_of_time():
